@@ -301,7 +301,24 @@ def expire(job, rng, home):
     outcome = gen.make_outcome(w, rng, "complete")
     pol = dict(tick=rng.choice([3600.0, 7200.0, 14400.0]), max_iters=300)
     pol.update(job.get("policy") or {})
-    res = driver.execute(w.flow_text(), outcome, rng.randrange(1 << 30), home, policy=pol, point_index=w.point_index())
-    return _pack(job["seed"], w, res, {"allcomplete": False, "stopreq": True})
+    plan = None
+    manual = False
+    if rng.random() < 0.4:
+        # manual triggers / holds around expiry time (a triggered task must not expire)
+        manual = True
+        cl = []
+        for _ in range(rng.randint(1, 3)):
+            it = rng.randint(1, 12)
+            ids = [f"{w.iso_point(rng.randint(w.icp, w.fcp))}/{rng.choice(sorted(w.expire) or w.tasks)}"]
+            if rng.random() < 0.5:
+                cl.append((it, "hold", {"tasks": ids}))
+                cl.append((it + rng.randint(0, 2), "force_trigger_tasks", {"tasks": ids, "flow": []}))
+            else:
+                cl.append((it, "force_trigger_tasks", {"tasks": ids, "flow": []}))
+        plan = {"cmds": cl}
+    res = driver.execute(w.flow_text(), outcome, rng.randrange(1 << 30), home, policy=pol, point_index=w.point_index(),
+                         plan=plan)
+    return _pack(job["seed"], w, res, {"allcomplete": False, "stopreq": True, "manual": manual},
+                 {"plan": plan} if plan else None)
 
 SCENARIOS["expire"] = expire
